@@ -25,6 +25,7 @@ import (
 	"strings"
 	"unicode/utf8"
 
+	"github.com/prometheus/common/model"
 	"github.com/prometheus/prometheus/model/labels"
 	"github.com/prometheus/prometheus/model/timestamp"
 
@@ -423,26 +424,46 @@ func roundTrip(e parser.Expr) (what, printed string) {
 	return "", printed
 }
 
-func hasZeroDuration(e parser.Expr) bool {
-	zeroIn := func(vs *parser.VectorSelector) bool {
-		for _, v := range vs.OriginalOffsetEx {
-			if v == 0 {
-				return true
-			}
+// badDuration: "zero-duration" when a range / list offset of the node is 0 seconds, "duration-out-of-range" when a range
+// or offset is more than maxSecs seconds (both are values parseDuration's rounding produces and no literal denotes), else ""
+func badDuration(e parser.Expr) string {
+	abs := func(v int64) int64 {
+		if v < 0 {
+			return -v
 		}
-		return false
+		return v
+	}
+	kind := ""
+	note := func(v int64, zeroBad bool) {
+		if zeroBad && v == 0 && kind == "" {
+			kind = "zero-duration"
+		}
+		if abs(v) > maxSecs {
+			kind = "duration-out-of-range"
+		}
+	}
+	sel := func(vs *parser.VectorSelector) {
+		for _, v := range vs.OriginalOffsetEx {
+			note(v, true)
+		}
+		note(vs.OriginalOffset, false)
 	}
 	switch n := e.(type) {
 	case *parser.MatrixSelector:
-		vs, _ := n.VectorSelector.(*parser.VectorSelector)
-		return n.Range == 0 || (vs != nil && zeroIn(vs))
+		note(n.Range, true)
+		if vs, ok := n.VectorSelector.(*parser.VectorSelector); ok {
+			sel(vs)
+		}
 	case *parser.SubqueryExpr:
-		return n.Range == 0
+		note(n.Range, true)
+		note(n.OriginalOffset, false)
 	case *parser.VectorSelector:
-		return zeroIn(n)
+		sel(n)
 	}
-	return false
+	return kind
 }
+
+func hasZeroDuration(e parser.Expr) bool { return badDuration(e) != "" }
 
 // anyZeroDuration: some range / list offset in the tree is 0 seconds (known finding zero-duration); these are the only
 // accepted trees outside the well-formedness predicate of the Lean theorem
@@ -497,14 +518,108 @@ func lexStrings(h *verifx.H, r *verifx.Rng, text string, toks []token) {
 	}
 }
 
+const maxSecs = 9223372036 // 2^63 ns / 10^9: the largest `<n>s` model.ParseDuration accepts
+
+// lexLiterals: the number, duration and word tokens of the text, as the real lexer cuts them from the input that starts
+// at the token (up to 8 of each), against the byte-level models of lexNumberOrDuration, lexDuration, parseDuration,
+// lexKeywordOrIdentifier + keyword table, and the printer's `%ds`:
+//
+//	> lexnum <hex>    < num <len> | dur <len> | err       first token of the input
+//	> lexdur <hex>    < dur <len> | err                   first token after a `[`
+//	> pdur <hex>      < secs <n> | secs X                  parseDuration on the token text
+//	> durtext <n>     < text <hex>                          fmt.Sprintf("%ds", n)   (printed text only)
+//	> lexword <hex>   < word <len> <TOKEN>
+func lexLiterals(h *verifx.H, text string, toks []token, printed bool) {
+	nNum, nWord := 0, 0
+	brace := false
+	for _, t := range toks {
+		switch t.name {
+		case "LEFT_BRACE":
+			brace = true
+		case "RIGHT_BRACE":
+			brace = false
+		}
+		if t.pos >= len(text) || t.name == "ERR" {
+			continue
+		}
+		in := text[t.pos:]
+		if len(in) > 120 {
+			in = in[:120]
+		}
+		c := in[0]
+		switch {
+		case (t.name == "NUMBER" && (c >= '0' && c <= '9' || c == '.')) || t.name == "DURATION":
+			if nNum >= 8 {
+				continue
+			}
+			nNum++
+			var it parser.Item
+			// lexStatements enters lexNumberOrDuration on a digit, or a dot followed by a digit (after `[` a DURATION token
+			// such as `y` can start with its unit: that is lexDuration only)
+			if c >= '0' && c <= '9' || (c == '.' && len(in) > 1 && in[1] >= '0' && in[1] <= '9') {
+				h.Op("lexnum %s", hx(in))
+				parser.Lex(in).NextItem(&it)
+				switch {
+				case it.Typ == parser.NUMBER && it.Pos == 0:
+					h.Obs("num %d", len(it.Val))
+				case it.Typ == parser.DURATION && it.Pos == 0:
+					h.Obs("dur %d", len(it.Val))
+				default:
+					h.Obs("err")
+				}
+			}
+			h.Op("lexdur %s", hx(in))
+			l := parser.Lex("[" + in)
+			l.NextItem(&it)
+			l.NextItem(&it)
+			if it.Typ == parser.DURATION && it.Pos == 1 {
+				h.Obs("dur %d", len(it.Val))
+			} else {
+				h.Obs("err")
+			}
+			h.Stat("lexnum", 1)
+			if t.name == "DURATION" {
+				// float64(ns) is exact below 2^59 ns (every duration is a multiple of 10^6 ns); the model rounds exactly
+				if d, err := model.ParseDuration(t.text); err != nil || uint64(d) < 1<<59 || uint64(d) >= uint64(maxSecs)*1e9 {
+					h.Op("pdur %s", hx(t.text))
+					if secs, err := parser.VerifParseDuration(t.text); err == nil {
+						h.Obs("secs %d", secs)
+						if printed && secs > 0 {
+							h.Op("durtext %d", secs)
+							h.Obs("text %s", hx(fmt.Sprintf("%ds", secs)))
+						}
+					} else {
+						h.Obs("secs X")
+					}
+					h.Stat("pdur", 1)
+				}
+			}
+		case !brace && (c == ':' || c == '_' || c >= 'a' && c <= 'z' || c >= 'A' && c <= 'Z') && t.name != "COLON":
+			if nWord >= 8 {
+				continue
+			}
+			nWord++
+			var it parser.Item
+			h.Op("lexword %s", hx(in))
+			parser.Lex(in).NextItem(&it)
+			if it.Pos == 0 && it.Typ != parser.ERROR {
+				h.Obs("word %d %s", len(it.Val), parser.VerifTokName(it.Typ))
+			} else {
+				h.Obs("err")
+			}
+			h.Stat("lexword", 1)
+		}
+	}
+}
+
 // lexObs: the model's `tokOk` must hold for every token the real lexer produced, except a duration that
 // parseDuration accepts and rounds to 0 seconds (known finding zero-duration)
 func lexObs(h *verifx.H, toks []token) {
 	for _, t := range toks {
 		if t.name == "DURATION" {
-			if d, err := parser.VerifParseDuration(t.text); err == nil && d == 0 {
+			if d, err := parser.VerifParseDuration(t.text); err == nil && (d == 0 || d > maxSecs) {
 				h.Obs("lex 0")
-				h.Stat("lex.zero-duration", 1)
+				h.Stat("lex.unprintable-duration", 1)
 				return
 			}
 		}
@@ -515,7 +630,7 @@ func lexObs(h *verifx.H, toks []token) {
 func wfObs(h *verifx.H, e parser.Expr) {
 	if anyZeroDuration(e) {
 		h.Obs("wf 0")
-		h.Stat("wf.zero-duration", 1)
+		h.Stat("wf.unprintable-duration", 1)
 	} else {
 		h.Obs("wf 1")
 	}
@@ -679,10 +794,10 @@ var labelPool = []string{"a", "b", "job", "instance", "le", "x1", "_z", "on", "b
 	"and", "or", "unless", "sum", "avg", "topk", "atan2", "start", "end", "inf", "NaN", "1", "0x1f", "1e5", "007", "Inf"}
 var badLabelPool = []string{"without", "default", "dbag", "a:b", "1.5", "5m", "1e+5"}
 var durPool = []string{"5m", "1m", "30s", "1h", "1h30m", "90s", "1d", "2w", "1y", "1s500ms", "10s", "1s", "2s", "1d12h", "7d", "1500s", "1m30s"}
-var oddDurPool = []string{"0s1ms", "0s400ms", "0s", "1h5s3m", "0s600ms", "1s499ms"}
+var oddDurPool = []string{"0s1ms", "0s400ms", "0s", "1h5s3m", "0s600ms", "1s499ms", "5mm", "1h2", "5ms", "1y2w3d4h5m6s7ms", "1m1m", "1d1y", "10s5", "1s5", "2h30", "1w2d3ms", "5M"}
 var numPool = []string{"1", "0", "2", "3.14", ".5", "1.", "1e3", "1E-3", "0x1F", "017", "Inf", "inf", "NaN", "nan", "42", "1e6", "1e21", "0.000001",
 	"123456789", "1e-7", "0X10", "2.5e+3", "INF", "10", "100"}
-var oddNumPool = []string{"1e400", "0x", "08", "1e", "9223372036854775808", "0x8000000000000000"}
+var oddNumPool = []string{"1e400", "0x", "08", "1e", "9223372036854775808", "0x8000000000000000", "1.e5", "1e+", "0x1F.8", "1.5.2", "00", "0e0", "1E+10", ".5e-3", "0xABCDEFabcdef", "1e-", "0X", "1.", "5.e", "1e5e5", "1x"}
 var binOps = []string{"+", "-", "*", "/", "%", "^", "==", "!=", "<", "<=", ">", ">=", "and", "or", "unless", "default", "atan2"}
 var aggOps = []string{"sum", "avg", "count", "min", "max", "group", "stddev", "stdvar", "topk", "bottomk", "count_values", "quantile", "sort",
 	"sort_desc", "drop_empty_series", "dbag"}
@@ -1306,6 +1421,7 @@ func runCase(h *verifx.H, r0 *verifx.Rng, src string) {
 	}
 	r, ok := checkParse(h, src, "generated")
 	lexStrings(h, r0, src, toks)
+	lexLiterals(h, src, toks, false)
 	h.Op("parse %s", renderFull(toks))
 	lexObs(h, toks)
 	if !ok {
@@ -1357,6 +1473,7 @@ func runCase(h *verifx.H, r0 *verifx.Rng, src string) {
 	// parse the printed text
 	r2, ok2 := checkParse(h, printed, "printed")
 	lexStrings(h, r0, printed, ptoks)
+	lexLiterals(h, printed, ptoks, true)
 	h.Op("parse %s", renderFull(ptoks))
 	lexObs(h, ptoks)
 	switch {
@@ -1373,8 +1490,8 @@ func runCase(h *verifx.H, r0 *verifx.Rng, src string) {
 	if node, what, p := smallestFailure(r.e); node != nil {
 		typ := strings.TrimPrefix(fmt.Sprintf("%T", node), "*parser.")
 		sig := "rt-" + typ + "-" + strings.Fields(what)[0]
-		if hasZeroDuration(node) {
-			sig = "zero-duration"
+		if k := badDuration(node); k != "" {
+			sig = k
 		}
 		h.Viol(sig, "accepted %q; sub-expression %s prints as %q which %s (whole expression printed as %q)", src, typ, p, what, printed)
 		h.Stat("oracle."+sig, 1)
